@@ -70,8 +70,12 @@ RULES = {
     "`<a>.is_graph_output()` is known to be false (an exit or branch on that test governs it) - otherwise an Identity between two graph "
     "outputs is folded by renaming the first output to the second: the graph then lists one value twice and the name of the first "
     "output is gone (the common-subexpression pass, which tests this and keeps an Identity, is the reference)",
+    "R16": "a falsy value is a value (shared rule S12): in the pass modules, whether an attribute has a value, a node has a graph, a value "
+    "has a shape is asked with `is None` - never by truthiness of an `Attr.value` (Any) or of a sized IR object: `if attr.value` takes the "
+    "declared default 0 / 0.0 / '' / [] of a function's attribute parameter for no default, so the inliner drops the `@attr` reference "
+    "and the inlined operator computes with its own schema default (Softmax over axis -1 instead of 0)",
 }
-FLOORS = {"R1": 5, "R2": 6, "R3": 8, "R4": 6, "R5": 8, "R6": 2, "R7": 1, "R8": 10, "R9": 1, "R10": 3, "R11": 1, "R12": 2, "R13": 2, "R14": 2, "R15": 2}
+FLOORS = {"R1": 5, "R2": 6, "R3": 8, "R4": 6, "R5": 8, "R6": 2, "R7": 1, "R8": 10, "R9": 1, "R10": 3, "R11": 1, "R12": 2, "R13": 2, "R14": 2, "R15": 2, "R16": 100}
 EXPLANATION = (
     "Four structural necessary conditions of semantic preservation that the pass mechanisms rely on: guarded removal, "
     "interface-size preservation (call-site scan with receiver typing), data-dependence of the equivalence keys on all "
@@ -1177,7 +1181,34 @@ def rule_r15(ctx):
     ctx.require(n >= 2, f"only {n} take-over renames found in the pass modules")
 
 
+def rule_r16(ctx):
+    from ..shared import sized_payload_truth_tests
+
+    n = 0
+    for m in ctx.repo.pkg_modules():
+        if not m.name.startswith("onnx_ir.passes") or m.name.endswith("_test"):
+            continue
+        for f in m.all_funcs:
+            if isinstance(f.node, ast.Lambda):
+                continue
+            f._s12_examined = 0
+            hits = sized_payload_truth_tests(ctx.repo, ctx.typer, f)
+            n += f._s12_examined
+            for node, t, src, cls in hits:
+                ctx.check("R16", f"{f.local}: presence of {norm(t)} ({src}) is tested with `is None`", False, f, node,
+                          f"`{norm(t)}` is tested by truthiness but it is declared `{src}`: {cls.replace('the value of a GRAPH attribute is a Graph', 'an attribute value can be 0, 0.0, an empty string or list')} - "
+                          "a falsy value is taken for an absent one, so what the test guards is skipped: the pass then rewrites the model as if the attribute had no value "
+                          "(a declared default of 0 is dropped and the operator falls back to its own default) and the results differ",
+                          how="declared type of the tested expression (S10 source tracing) vs `Any`-typed attribute values and sized IR classes",
+                          construct=f"truthiness of {src} in {f.local}")
+    for _ in range(n):
+        ctx.counts["R16"] = ctx.counts.get("R16", 0) + 1
+    ctx.ob("R16", f"{n} truthiness tests with a declared type examined in the pass modules", True, nontrivial=False, how="S12")
+    ctx.require(n >= 100, f"only {n} typed truthiness tests found in the pass modules")
+
+
 def run(ctx):
+    rule_r16(ctx)
     rule_r15(ctx)
     rule_r14(ctx)
     rule_r13(ctx)
